@@ -15,7 +15,7 @@
    shortcut, the insert-mode trick for the bottom-right cell.  Full-screen mode: any history of draws,
    redraws of the same canvas object, clear() with arbitrary terminal contents and size changes.
    Partial display mode (no alternate buffer; display origin = terminal row 0, lines below blank, as many
-   terminal rows as canvas rows): any history of draws and clear().
+   terminal rows as canvas rows): any history of draws, clear() and frames abandoned by a mid-draw SIGWINCH.
    NOT proved (statement kept below, decided by correspondence + oracle only): zero-width and C0 control
    characters in the canvas text; partial display with a display origin below row 0 and size changes in
    partial display mode (oracle only). *)
@@ -130,6 +130,20 @@ Print Assumptions draw_paints_partial.
 Theorem draws_paint_partial : draws_paint_statement true PaintsPartial.
 Proof. exact draws_paint_partial_lemma. Qed.
 Print Assumptions draws_paint_partial.
+
+(* all histories in partial display mode - draws, clear(), frames abandoned because SIGWINCH arrived while
+   the frame was produced (then acknowledged) -: the agreement is kept, and right after a completed
+   draw the terminal paints that canvas *)
+Theorem partial_history_paints :
+  forall c s t content cursor,
+    cfg_ok c -> ReachP c s t (Some (content, cursor)) -> PaintsPartial c s t content cursor.
+Proof. exact partial_history_paints_lemma. Qed.
+Print Assumptions partial_history_paints.
+
+Theorem partial_history_keeps_sync :
+  forall c s t last, cfg_ok c -> ReachP c s t last -> SyncP c s t.
+Proof. exact partial_history_sync_lemma. Qed.
+Print Assumptions partial_history_keeps_sync.
 
 Theorem partial_clear_keeps_sync : forall c s t, SyncP c s t -> SyncP c (clear s) t.
 Proof. exact syncp_clear. Qed.
